@@ -73,18 +73,18 @@ Proof.
 Qed.
 
 (* ---- the consumer ---- *)
-Lemma deliver_app n b a r : deliver n b = (a, r) -> a ++ r = b.
+Lemma deliver_app b : forall n a r, deliver n b = (a, r) -> a ++ r = b.
 Proof.
-  unfold deliver, takeN. destruct (take (N.to_nat n) b) as [[a' r']|] eqn:E; intros H; inversion H; subst.
-  - destruct (take_some _ _ _ _ E) as [-> _]. reflexivity.
-  - now rewrite app_nil_r.
+  induction b as [|c t IH]; intros n a r H; cbn [deliver] in H.
+  - inversion H; reflexivity.
+  - destruct (n =? 0); [inversion H; reflexivity|].
+    destruct (deliver (n - 1) t) as [a' r'] eqn:E. inversion H; subst. cbn. f_equal. eapply IH; eauto.
 Qed.
 
 Lemma deliver_pos n c b a r : 0 < n -> deliver n (c :: b) = (a, r) -> a <> [].
 Proof.
-  unfold deliver, takeN. intros Hn. destruct (take (N.to_nat n) (c :: b)) as [[a' r']|] eqn:E; intros H; inversion H; subst.
-  - destruct (take_some _ _ _ _ E) as [_ Hl]. intros ->. cbn in Hl. lia.
-  - discriminate.
+  intros Hn H. cbn [deliver] in H. destruct (n =? 0) eqn:E; [apply N.eqb_eq in E; lia|].
+  destruct (deliver (n - 1) b) as [a' r']. inversion H; subst. discriminate.
 Qed.
 
 Lemma flat_snoc o tok : flat (o ++ [tok]) = tok ++ flat o.
